@@ -190,6 +190,12 @@ pub fn is_known(ctx: &Ctx, f: &Fail) -> bool {
         return false;
     }
     if collecting() {
+        // VERIF_ONLY=<substring>: failures whose "rule|sig" contains it stay real (and get shrunk)
+        if let Ok(only) = std::env::var("VERIF_ONLY") {
+            if format!("{}|{}", f.rule, f.sig).contains(&only) {
+                return false;
+            }
+        }
         let mut g = COLLECTED.lock().unwrap();
         let e = g.entry((f.rule.clone(), f.sig.clone())).or_insert((0, f.detail.clone()));
         e.0 += 1;
